@@ -6,9 +6,9 @@ from vlib.core import qlit, qvec, coqbool
 
 OBLIGATIONS = dict(
     prop_file='Properties/C07.v',
-    glue=['Glue/GradGlue.v', 'Glue/Pin_p_grad.v', 'Glue/SteGlue.v'],
+    glue=['Glue/GradGlue.v', 'Glue/Pin_p_grad.v', 'Glue/SteGlue.v'] + ['Glue/Pin_fp_C07.v'],
     extra=['Model/GradCheck.vo'],
-    gen_items=['g_vq_maybe_detach', 'g_vq_rotate', 'k_safe_div', 'p_grad', 'k_fsq_bound', 'k_vq_ste', 'k_vq_sync_update', 'k_fsq_round_ste', 'k_simvq_ste', 'k_lq_ste', 'k_gumbel_st', 'k_lfq_ste'],
+    gen_items=['g_vq_maybe_detach', 'g_vq_rotate', 'k_safe_div', 'p_grad', 'k_fsq_bound', 'k_vq_ste', 'k_vq_sync_update', 'k_fsq_round_ste', 'k_simvq_ste', 'k_lq_ste', 'k_gumbel_st', 'k_lfq_ste', 'fp_C07'],
 )
 ASSUMPTIONS = [
     'torch autograd is MODELLED: every sub-expression the source wraps in .detach() / computes under no_grad is a constant of the differentiated map; the resulting affine maps are differentiated by hand (theorems) and validated against torch Jacobians / gradients',
